@@ -1,5 +1,5 @@
 """C06 — conversions stay inside caller buffers and honour the read/written contract."""
-import r_handle, r_inputempty
+import r_handle, r_inputempty, r_unchecked
 
 MANIFEST = {
     'category': 'other',
@@ -19,6 +19,8 @@ def run(rep, facts, tier):
         r_handle.run(rep, f, c)
         n = r_inputempty.run(rep, f, c, 'R-INPUTEMPTY')
         rep.floor('R-INPUTEMPTY', 'InputEmpty constructions', n, 80, c)
+        n, d = r_unchecked.run(rep, f, c, 'R-UNCHECKED')
+        rep.floor('R-UNCHECKED', 'unchecked slice accesses outside write_code_unit', n, 100, c)
     return ('other',
             'Structural part of C06 decided from MIR: (D1) R-HANDLE — every store into a converter destination goes '
             'through a linear handle whose construction is dominated by a space test proving at least as many units '
